@@ -244,7 +244,9 @@ def execute(ops, seed_key, schedule, qrng, rec, info):
             b = gen.vec(rng, cur.R, op[1])
             cur = cur.get_density_of_linear_sum(J(W), J(b))
         elif kind == "update":
-            d, _ = build.mk_pdf(rng, 1, cur.D, kappa=10.0)
+            # a diagonal density is updated with a diagonal one (its documented argument type)
+            d, _ = build.mk_pdf(rng, 1, cur.D, kappa=10.0,
+                                diag=type(cur).__name__ == "GaussianDiagPDF")
             cur.update(JI([op[1]]), d)
         elif kind == "lin":
             _, ck, which, Dy, Rc = op
